@@ -46,6 +46,11 @@ def units(ctx):
         'and named groups x flag combinations x all strings over {a,b,=} up '
         'to length 2 (4 in the thorough tier) plus Unicode samples',
         timeout=1500))
+    from contracts import colls3 as _c3
+    from vlib.pyvc.unit import contract_unit as _cu3
+    us += [_cu3(c, world_setup=_c3.setup)
+           for c in _c3.predicate_contracts() + _c3.wrapper_contracts()
+           if 'C19' in c.serves]
     return us
 
 
